@@ -308,9 +308,20 @@ def check_impl(crate, b, res):
             out.append(fnd("C05.EXACT", v, "char does not return the first character exactly when there is no second one"))
         # both domain errors exist (empty / more than one), and the long one names the string and its length in characters
         unexp = [s2 for s2 in bs.sites if s2.ek == "Unexpected"]
-        if len(unexp) != 2:
+        separate = len(unexp) == 2
+        if len(unexp) == 1:
+            # one report whose message is chosen beforehand: two different texts arrive at it
+            s1 = unexp[0]
+            fld = dict(zip(s1.payload[5], s1.payload[2])) if s1.payload and len(s1.payload) > 5 else {}
+            msg_t = fld.get("msg")
+            separate = msg_t is not None and len(set(v.alts(msg_t))) >= 2
+        if len(unexp) == 0:
             out.append(fnd("C05.BOUND", v, "char must report the empty string and the too long string separately"))
-        else:
+        elif not separate:
+            f_ = fnd("C05.BOUND", v, "char must report the empty string and the too long string separately: the %d reports found were not recognised as these two (undecided)" % len(unexp))
+            f_.undecided = True
+            out.append(f_)
+        if unexp:
             okb = False
             for bb2, c2 in v.calls():
                 if c2.fn is not None and "fmt::rt::Argument" in (c2.path or ""):
